@@ -288,11 +288,18 @@ func c19Parse(lits []c19Lit) (resp fe.Resp, st pool.Status, src string) {
 func runC19(tier string) int {
 	c := ev.New("C19", tier)
 	c.Budget(map[string]int{"quick": 300, "thorough": 2400}[tier])
-	textL := 3
+	// length 4 is the smallest length that contains two escapes in a row
+	textL, textRunL := 4, 4
 	if tier == "thorough" {
-		textL = 4
+		textL = 5
 	}
 	texts, exclTexts := c19Texts(textL)
+	var rtTexts []c19Lit
+	for _, t := range texts {
+		if len([]rune(t.raw)) <= textRunL+2 {
+			rtTexts = append(rtTexts, t)
+		}
+	}
 	c.Add("excluded_unspecified", int64(exclTexts))
 	bools := []c19Lit{{kind: "bool", raw: "wahr", valid: true, val: true, class: "bool"}, {kind: "bool", raw: "falsch", valid: true, val: false, class: "bool"}}
 	astLits := append(append(append(append(c19Ints(), c19Floats(tier)...), c19Chars(tier, true)...), texts...), bools...)
@@ -388,7 +395,7 @@ func runC19(tier string) int {
 
 	// (B) run time: RawLit through the compiler
 	var cases []*batch.Case
-	rtLits := append(append(append(append(c19Ints(), sampleFloatsForRuntime(tier)...), c19Chars(tier, false)...), texts...), bools...)
+	rtLits := append(append(append(append(c19Ints(), sampleFloatsForRuntime(tier)...), c19Chars(tier, false)...), rtTexts...), bools...)
 	k := 0
 	for _, l := range rtLits {
 		if !l.valid {
@@ -472,7 +479,7 @@ func runC19(tier string) int {
 	c.Set("traces_validated_against_impl", astChecked+st.Runs)
 	c.Set("distinct_nontrivial", len(valid)+len(invalid))
 	c.Set("rule", "state = one literal spelling; AST level: parser.Parse value compared exactly with the written value (every literal), run-time level: compiled program prints the value (batched); invalid spellings must give an error diagnostic; distinct_nontrivial = distinct spellings")
-	c.Set("bounds", map[string]any{"text_alphabet": "a \" \\ n t x LF ä 😀 '", "text_max_len": textL, "chars_ast_level": map[string]string{"quick": "all of U+0000..U+FFFF + plane boundaries", "thorough": "every Unicode scalar value"}[tier],
+	c.Set("bounds", map[string]any{"text_alphabet": "a \" \\ n t x LF ä 😀 '", "text_max_len_ast_level": textL, "text_max_len_run_time": textRunL, "chars_ast_level": map[string]string{"quick": "all of U+0000..U+FFFF + plane boundaries", "thorough": "every Unicode scalar value"}[tier],
 		"decimals": "D,F with D<=" + map[string]string{"quick": "19", "thorough": "99"}[tier] + " (with and without leading zero), F of 1..3 digits, + 22 stress values", "integers": "0..20, 2^k, 2^k±1 (k<=64), 10^k, 10^k±1 (k<=20), leading zeros"})
 	c.Assume("correctly rounded decimal = strconv.ParseFloat", "texts containing an unescaped quote are two tokens, not one literal: excluded", "run-time printing through libc %.16g / %lld")
 	return c.Finish()
